@@ -53,10 +53,27 @@ func GetNonce(ctx context.Context) (nonce string) {
 	return v.nonce
 }
 
+// WithChildren returns a context that carries children for the component rendered with it.
+// The returned context has its own children slot, so that the block does not leak to components
+// rendered later with the original context; everything else (emitted scripts and CSS classes,
+// once handles, the nonce) stays shared with the original context.
 func WithChildren(ctx context.Context, children Component) context.Context {
-	ctx, v := getContext(ctx)
-	v.children = &children
-	return ctx
+	_, v := getContext(ctx)
+	if v.ss == nil {
+		v.ss = map[string]struct{}{}
+	}
+	if v.onceHandles == nil {
+		v.onceHandles = map[*OnceHandle]struct{}{}
+	}
+	derived := &contextValue{
+		ss:          v.ss,
+		onceHandles: v.onceHandles,
+		nonce:       v.nonce,
+	}
+	if children != nil {
+		derived.children = &children
+	}
+	return context.WithValue(ctx, contextKey, derived)
 }
 
 func ClearChildren(ctx context.Context) context.Context {
@@ -69,12 +86,17 @@ func ClearChildren(ctx context.Context) context.Context {
 var NopComponent = ComponentFunc(func(ctx context.Context, w io.Writer) error { return nil })
 
 // GetChildren from the context.
+// The returned component renders the children with a context that carries no children, so that a
+// component called without a block from inside the children does not receive the children themselves.
 func GetChildren(ctx context.Context) Component {
 	_, v := getContext(ctx)
 	if v.children == nil {
 		return NopComponent
 	}
-	return *v.children
+	children := *v.children
+	return ComponentFunc(func(ctx context.Context, w io.Writer) error {
+		return children.Render(WithChildren(ctx, nil), w)
+	})
 }
 
 // EscapeString escapes HTML text within templates.
